@@ -116,6 +116,14 @@ impl SwiftField for Field25P {
     where
         Self: Sized,
     {
+        // The formats below are cut out by byte offsets: only ASCII can be sliced safely, and
+        // no SWIFT character set contains anything else
+        if !input.is_ascii() {
+            return Err(ParseError::InvalidFormat {
+                message: "Field 25P must contain only ASCII characters".to_string(),
+            });
+        }
+
         // Field25P has account on first line and BIC on second
         let lines: Vec<&str> = input.split('\n').collect();
 
@@ -198,6 +206,14 @@ impl SwiftField for Field25AccountIdentification {
     where
         Self: Sized,
     {
+        // The formats below are cut out by byte offsets: only ASCII can be sliced safely, and
+        // no SWIFT character set contains anything else
+        if !input.is_ascii() {
+            return Err(ParseError::InvalidFormat {
+                message: "Field 25AccountIdentification must contain only ASCII characters".to_string(),
+            });
+        }
+
         // Try to determine variant based on content
         // If it contains a newline or looks like it has a BIC at the end, it's Option P
         if input.contains('\n')
